@@ -167,6 +167,24 @@ func doEnc(out *bufio.Writer, i int) {
 	}
 	fmt.Fprintf(out, "ENC %d %s\n", i, hex.EncodeToString(buf.Bytes()))
 }
+func doEncU(out *bufio.Writer, i int) {
+	for _, st := range []struct { tag string; on bool }{{"ENCU", false}, {"ENCG", true}} {
+		codec.VerifSetRegistryEnabled(st.on)
+		func() {
+			defer func() {
+				if r := recover(); r != nil { fmt.Fprintf(out, "%s %d ERR PANIC: %s\n", st.tag, i, clean(fmt.Sprint(r))) }
+			}()
+			obj := builders[i]()
+			var buf bytes.Buffer
+			if err := obj.Encode(&buf); err != nil {
+				fmt.Fprintf(out, "%s %d ERR %s\n", st.tag, i, clean(err.Error()))
+				return
+			}
+			fmt.Fprintf(out, "%s %d %s\n", st.tag, i, hex.EncodeToString(buf.Bytes()))
+		}()
+	}
+	codec.VerifSetRegistryEnabled(true)
+}
 func doDec(out *bufio.Writer, cid string, data []byte) {
 	var obj *@ROOT@
 	ok := false
@@ -224,6 +242,11 @@ func main() {
 			fmt.Sscanf(parts[1], "%d", &i)
 			fmt.Fprintf(out, "BEGIN E %d\n", i); out.Flush()
 			doEnc(out, i)
+		} else if parts[0] == "U" {
+			var i int
+			fmt.Sscanf(parts[1], "%d", &i)
+			fmt.Fprintf(out, "BEGIN U %d\n", i); out.Flush()
+			doEncU(out, i)
 		} else if parts[0] == "R" {
 			fmt.Fprintf(out, "BEGIN R %s\n", parts[1]); out.Flush()
 			var a, b []byte
